@@ -882,7 +882,11 @@ def run(ctx):
                 'ONE GraphVerifier instance (one adapter instance) called on 2-4 graphs in order: crafted and random '
                 'descriptive-id twins (a DAG and its unfoldings, equal node names) that differ in validity, in both orders, '
                 'same structure with new uids, the same object twice; every call must equal the fresh-verifier verdict; '
-                'non-trivial = the sequence contains two different graphs with the same descriptive_id')
+                'non-trivial = the sequence contains two different graphs with the same descriptive_id.  Group modifying-rules: '
+                'a fresh graph verified twice by one verifier whose rule list contains a user rule that drops / reconnects / '
+                'renames nodes of its argument (native and domain-level, all adapters); non-trivial = graph with >= 2 nodes.  '
+                'Verifiers are built as GraphVerifier(...) or through GraphGenerationParams (list / tuple / default / EMPTY '
+                'rule collection)')
     ctx.trusted_extra = [
         'NetworkX: DiGraph / Graph adjacency and isolates are modelled by their documented meaning (degree 0), the '
         'breadth-first search of is_connected by a hand-copied literal model (Graph/RulesBfs.v); both are tied to the '
